@@ -924,7 +924,7 @@ func TestC09(t *testing.T) {
 		Level: "exploration",
 		Rule: "rapid draws a consistent database through the API (history of 1-14 transactions over stores with unique, nullable-unique and set indexes, nullable and non-null fk indexes, an fk constraint and a link collection) and 0-5 raw corruptions applied with bbolt behind the API's back, each on its own entities/values: unique index missing / extra (existing or missing id) / wrong target; set index missing id / missing key / extra id (existing or missing) / empty key; fk missing / extra (existing or missing id) back-reference, dangling nullable reference; link one-sided (either side) / dangling; plus the unfixable conflicts duplicate unique value and null in a non-nullable field. " +
 			"Oracle: on the clean database both modes report nothing and change nothing; with corruptions the check-only run reports every one (token match on ids and values), reports nothing about untouched entities, and leaves the dump identical; one fix run followed by a re-check reports only the unfixable conflicts (still, as unfixed) and all indexes / back-references / links equal the model again. " +
-			"Also generated: a plain or extended child store with its own unique index (checked and corrupted too), empty alias / reference values, a check-only run inside the transaction that wrote the last changes, and a formerly dangling id created and linked through the API after the fix run. " +
+			"Also generated: a plain or extended child store with its own unique index (checked and corrupted too), empty alias / reference values, a check-only run inside the transaction that wrote the last changes, and a formerly dangling id created and linked through the API after the fix run. Also: entity buckets are created lazily (a store that never held an entity has none). " +
 			"Non-trivial: >= 2 simultaneous corruptions, or an unfixable conflict combined with a fixable one. Distinct by hash of the case JSON.",
 		Assumptions: []string{"reports are attributed by the ids / values they mention, so a report that names the right tokens for a wrong reason passes",
 			"dangling references in non-nullable fields and plain (non-bucket) keys inside a set index are not injected"},
